@@ -63,6 +63,35 @@ def run_extractor():
         raise InfraError("extractor failed on the working tree (does /repo parse?):\n" + out)
 
 
+BASELINE = os.path.join(EXTRACT, "baseline")
+
+
+def restore_baseline():
+    """second way of the tie: the facts recorded from the last reviewed tree (extract/baseline) take the place
+    of the freshly regenerated ones; returns False when there is no baseline"""
+    names = [n for n in ("Wire.lean", "Helpers.lean", "Dpt.lean") if os.path.exists(os.path.join(BASELINE, n))]
+    if len(names) != 3:
+        return False
+    for n in names:
+        shutil.copy(os.path.join(BASELINE, n), os.path.join(LEAN, "Knx", "Gen", n))
+    return True
+
+
+def record_baseline():
+    """./check baseline: regenerate from /repo, build everything, and record the regenerated facts"""
+    run_extractor()
+    ok, out = lake_build([])
+    if not ok:
+        print(out[-4000:])
+        print("ERROR: the regenerated facts do not build; baseline not recorded")
+        return 2
+    os.makedirs(BASELINE, exist_ok=True)
+    for n in ("Wire.lean", "Helpers.lean", "Dpt.lean"):
+        shutil.copy(os.path.join(LEAN, "Knx", "Gen", n), os.path.join(BASELINE, n))
+    print("baseline recorded from", REPO)
+    return 0
+
+
 def lake_build(targets):
     rc, out = sh(["lake", "build"] + targets, cwd=LEAN, timeout=3600)
     return rc == 0, out
@@ -259,6 +288,9 @@ def main(argv):
         return props.setup()
     if argv[0] == "replay":
         return props.replay(argv[1])
+    if argv[0] == "baseline":
+        with Lock():
+            return record_baseline()
     prop = argv[0]
     tier = argv[1] if len(argv) > 1 else os.environ.get("VERIF_TIER", "quick")
     seed = int(os.environ.get("VERIF_SEED", "1"))
